@@ -77,7 +77,7 @@ func refValid(fam string, p Params) bool {
 	case "FGeometric":
 		return a[0] > 0 && a[0] <= 1
 	case "FNegBinomial":
-		return a[0] > 0 && a[0] >= 0 && a[1] >= 0 && a[1] <= 1
+		return a[0] > 0 && a[1] >= 0 && a[1] < 1
 	case "FPowerLaw":
 		return a[0] > 1 && a[1] > 0
 	}
@@ -376,6 +376,26 @@ func hunt(o Opts) {
 					histCheck(f, ad.Real64Type, c.P, c.Ops, NewRng(o.Seed+5), report, &tried)
 					histCheck(f, ad.Float64Type, c.P, c.Ops, NewRng(o.Seed+5), report, &tried)
 					continue
+				}
+				if c.Fn == "Ctor" && f.Name != "FCategorical" {
+					// regression cases for constructor guards (e.g. negative binomial (2.5, 1), was F-C14-NEGBIN-P1):
+					// acceptance must agree with the textbook parameter domain
+					d, err := func() (d interface{}, err error) {
+						defer func() {
+							if e := recover(); e != nil {
+								err = fmt.Errorf("panic")
+							}
+						}()
+						return f.New(ad.Real64Type, c.P)
+					}()
+					tried++
+					acc, val := err == nil && d != nil, refValid(f.Name, c.P)
+					if acc && !val {
+						report(mkF(f.Name, "ctor-accepts-invalid", "New", c.P, 0, "accepted", "error"))
+					}
+					if !acc && val {
+						report(mkF(f.Name, "ctor-rejects-valid", "New", c.P, 0, "error", "accepted"))
+					}
 				}
 				checkPoint(f, c.P, c.X)
 				if c.Fn != "LogPdf" && c.Fn != "Ctor" && c.Fn != "Pdf" {
